@@ -135,7 +135,21 @@ def _rand_scale(rng):
 def _scales(ctx, n):
     """n random scales plus plain SI (1 m, 1 s, 1 kg, 1 K): under SI a raw SI magnitude that bypasses the scale is
     'right', under every other scale it is wrong - so a bypass cannot hide behind factors that happen to be tiny."""
-    return [_rand_scale(ctx.rng) for _ in range(n)] + [[1.0, 1.0, 1.0, 1.0]]
+    SI = [1.0, 1.0, 1.0, 1.0]
+    rng = ctx.rng
+    # one base unit extreme; the time unit only by 1e+-3 here: with a 1e-6 time unit the implicit matrix of the
+    # solves is so badly scaled that np.linalg.inv itself loses 7 digits (rounding, not a scale dependence) - the
+    # 1e+-6 time units are exercised by pe_extreme / sw_extreme / dfi step counts / units / grid_routes
+    ax = [v for i, v in enumerate(_axis_scales(rng)) if i not in (6, 7)]; ax = ax[int(rng.integers(0, len(ax)))]
+    if n <= 1:
+        # two non-default scales: (log-uniform | one unit extreme) and (plain SI | tiny units), alternating at random
+        return [_rand_scale(rng) if rng.integers(0, 2) else ax, SI if rng.integers(0, 2) else TINY_UNITS]
+    # plain SI metres/seconds (non-dimensional radius 6.37e6), tiny units (every non-dimensional number huge), one base
+    # unit extreme, and n-1 log-uniform scales: an absolute threshold on ANY dimensional quantity is crossed by one of them
+    return [_rand_scale(rng) for _ in range(n - 1)] + [ax, SI, TINY_UNITS]
+
+
+TINY_UNITS = [1.3e-3, 7.0e-3, 1.9e-6, 2.3e-3]          # millimetres, milliseconds, milligrams, millikelvin (non-dyadic)
 
 
 # time units of 1 s (SI), 1 min, 1 h, 3 h, 1 day (DEFAULT_SCALE, time unit 1/(2 Omega), is always added by the runners)
@@ -147,7 +161,7 @@ def _axis_scales(rng, n=None):
     """scales in which exactly one base unit (length, time, mass, temperature) is extreme: 1e+-3, 1e+-6 times a
     moderate unit system (1000 km, 1e4 s, 1 kg, 1 K); `n` = size of a random subset (always containing the large and
     small temperature units)."""
-    base = [1e6, 1e4, 1.0, 1.0]
+    base = [1.1e6, 0.9e4, 1.3, 0.7]
     out = []
     for ax in range(4):
         for e in (3, -3, 6, -6):
@@ -228,8 +242,8 @@ def generate(ctx):
     # to seconds inside nondimensionalize rounds differently from a value already given in seconds - both are checked
     pairs = [[6, 'hour', 20, 'minute'], [6, 'hour', 30, 'minute'], [3, 'hour', 10, 'minute'], [1, 'hour', 7.5, 'minute']]
     # step counts / weights are compared for every pair; the (costly) filtered run only for the pairs listed in 'run'
-    yield 'dfi', {'eq': 'shallow_water', 'pairs': pairs, 'run': [0, 1] if quick else [0, 1, 2, 3], 'scales': TIME_UNIT_SCALES, 'seed': seed()}
-    yield 'dfi', {'eq': 'dry', 'pairs': pairs, 'run': [3] if quick else [0, 1, 2, 3], 'scales': TIME_UNIT_SCALES, 'seed': seed()}
+    yield 'dfi', {'eq': 'shallow_water', 'pairs': pairs, 'run': [0, 1] if quick else [0, 1, 2, 3], 'scales': TIME_UNIT_SCALES, 'count_scales': [TINY_UNITS, [1.0, 1e-3, 1.0, 1.0], [1.0, 7.3e6, 1.0, 1.0], _rand_scale(rng)], 'seed': seed()}
+    yield 'dfi', {'eq': 'dry', 'pairs': pairs, 'run': [3] if quick else [0, 1, 2, 3], 'scales': TIME_UNIT_SCALES, 'count_scales': [TINY_UNITS, [1.0, 1e-3, 1.0, 1.0], [1.0, 7.3e6, 1.0, 1.0], _rand_scale(rng)], 'seed': seed()}
     # winds <-> vorticity/divergence through the library's jitted helpers, several scales in one process, both orders
     for i_ in range(1 if quick else 3):
         yield 'winds', {'scales': _scales(ctx, 2), 'seed': seed(), 'grid': [None, {'impl': 'fast', 'base_shape_multiple': 4}, {'impl': 'fast'}][i_]}
@@ -255,7 +269,16 @@ def generate(ctx):
         variants += [dict(kind='dry', K=2, grid={'route': 'with_wavenumbers', 'M': 5, 'dealiasing': 'linear'}, integrators=['crank_nicolson_rk2']),
                      dict(kind='cloud', K=2, grid={'route': 'construct', 'max_wavenumber': 4, 'gaussian_nodes': 4, 'impl': 'fast'}, integrators=['backward_forward_euler']),
                      dict(kind='dry', K=2, grid={'route': 'TL31'}, integrators=['backward_forward_euler'])]
+    variants += [dict(kind='dry', K=4, levels='near_equidistant_round', eqkw={'vertical_matmul_method': 'sparse'}, integrators=['crank_nicolson_rk2']),
+                 dict(kind='moist', K=3, levels='near_ends', integrators=['backward_forward_euler'])]
+    if not quick:
+        variants += [dict(kind='dry', K=5, levels='near_equidistant_jitter', integrators=['imex_rk_sil3']),
+                     dict(kind='cloud', K=4, levels='near_equidistant_f32', integrators=['crank_nicolson_rk3']),
+                     dict(kind='dry', K=3, levels='near_ends', eqkw={'vertical_matmul_method': 'sparse'}, integrators=['crank_nicolson_rk2']),
+                     dict(kind='dry', K=2, grid={'M': 4, 'L': 5, 'I': 8, 'J': 300}, integrators=['backward_forward_euler']),
+                     dict(kind='dry', K=2, grid={'M': 4, 'L': 5, 'I': 8, 'J': 520, 'impl': 'fast'}, integrators=['backward_forward_euler'])]
     yield 'grid_routes', {'scales': _scales(ctx, 2), 'seed': seed(), 'routes': list(ROUTES)}
+    yield 'grid_routes', {'scales': _scales(ctx, 1), 'seed': seed(), 'routes': ['plain'], 'grid': {'M': 4, 'L': 5, 'I': 8, 'J': 300 if quick else 1030}}
     yield 'shallow_water', {'integrators': ['crank_nicolson_rk2', 'leapfrog'], 'nsteps': 1, 'scales': _scales(ctx, 1), 'seed': seed(), 'grid': {'route': 'construct'}}
     yield 'winds', {'scales': _scales(ctx, 2), 'seed': seed(), 'grid': {'route': 'with_wavenumbers', 'M': 4}}
     if not quick:
@@ -429,18 +452,36 @@ def _to_jnp(tree):
 # ---------------------------------------------------------------------------
 # primitive equations (dry / with time / moist / cloud)
 # ---------------------------------------------------------------------------
-def _pe_problem(rng, kind, K, tref_range=None, gridkw=None, structure=None):
+def _levels(rng, K, mode):
+    """sigma boundaries: uneven (default), or near-coincidence sets that the constructor ACCEPTS: nearly equidistant
+    (rounded to 7 digits / 2^-22 jitter / float32-accumulated) and end points only isclose to 0 and 1."""
+    if mode in (None, 'uneven'):
+        return util.uneven_boundaries(rng, K)
+    b = np.arange(K + 1, dtype=np.float64) / K
+    if mode == 'near_equidistant_round':
+        b = np.round(b, 7)
+    elif mode == 'near_equidistant_jitter':
+        b[1:-1] += 2.0 ** -22 * rng.integers(-1, 2, size=max(K - 1, 0))
+    elif mode == 'near_equidistant_f32':
+        b = np.concatenate([[0.0], np.cumsum(np.full(K, np.float32(1.0 / K), dtype=np.float32)).astype(np.float64)])
+        b[-1] = min(b[-1], 1.000009) if abs(b[-1] - 1) < 1e-5 else 1.0
+    elif mode == 'near_ends':
+        b = util.uneven_boundaries(rng, K); b[0] = 8e-9; b[-1] = [1.0000001, 0.999998][int(rng.integers(0, 2))]
+    return b
+
+
+def _pe_problem(rng, kind, K, tref_range=None, gridkw=None, structure=None, levels=None):
     gridkw = dict(gridkw or {})
     g0 = _mkgrid(**gridkw)
-    p = dict(b=util.uneven_boundaries(rng, K), consts=_si_constants(rng),
+    p = dict(b=_levels(rng, K, levels), consts=_si_constants(rng),
              vort=dyn.modal_field(rng, g0, (K,), 2, True, 2e-5), div=dyn.modal_field(rng, g0, (K,), 2, True, 4e-6),
              temp=dyn.modal_field(rng, g0, (K,), 2, False, 3.0),
              ps=1e5 * (1.0 + 0.03 * np.asarray(g0.to_nodal(dyn.modal_field(rng, g0, (1,), 2, False, 1.0)))),
              oro=dyn.modal_field(rng, g0, (), 2, False, 300.0),
-             tref=(250.0 + rng.integers(-30, 31, size=K).astype(np.float64)) if tref_range is None else
+             tref=(250.0 + rng.integers(-300, 301, size=K).astype(np.float64) / 10.0) if tref_range is None else
                   (float(rng.integers(230, 290)) + tref_range * np.sort(rng.integers(0, 65, size=K).astype(np.float64) / 64.0 + np.arange(K))[::-1] / K),
              tracers={t: dyn.modal_field(rng, g0, (K,), 2, False, 0.004) for t in dyn.PE_TRACERS[kind]},
-             dt=float(rng.integers(300, 1500)))
+             dt=float(rng.integers(3000, 15000)) / 10.0)
     for t in p['tracers']:
         p['tracers'][t][:, 0, 0] += 0.02
     p['gridkw'] = gridkw
@@ -481,7 +522,7 @@ def _pe_setup(sv, p, kind, **eqkw):
 def r_pe(ctx, a):
     m = M(); ti = m['ti']
     rng = np.random.Generator(np.random.PCG64(a['seed']))
-    kind = a['kind']; p = _pe_problem(rng, kind, a['K'], gridkw=a.get('grid'), structure=a.get('structure'))
+    kind = a['kind']; p = _pe_problem(rng, kind, a['K'], gridkw=a.get('grid'), structure=a.get('structure'), levels=a.get('levels'))
     eqkw = dict(a.get('eqkw') or {})
     labels = ['default'] + a['scales']
     R = {k: [] for k in ('explicit', 'implicit', 'inverse', 'steps')}
@@ -510,7 +551,7 @@ def r_pe(ctx, a):
                 steps.merge(_pe_state_si(specs, g, s, f'{integ} step {n + 1}: ', (n + 1) * _gmax(s, st)))
         R['steps'].append(steps)
     ctx.count('class:' + kind)
-    for k_ in ('grid', 'eqkw', 'structure'):
+    for k_ in ('grid', 'eqkw', 'structure', 'levels'):
         if a.get(k_): ctx.count(f'pe:{k_}={a[k_]}')
     # purity: the first equation object, re-evaluated after all the other scales were used, gives bit-identical results
     again = dyn.tree_to_np(first[0].explicit_terms(first[1]))
@@ -870,11 +911,12 @@ def r_grid_routes(ctx, a):
     labels = ['default'] + a['scales']
     for route in a['routes']:
         R = []
-        g0 = _mkgrid(radius=1.0, route=route)
+        gk = dict(a.get('grid') or {})
+        g0 = _mkgrid(radius=1.0, route=route, **gk)
         x = dyn.modal_field(rng, g0, (), 2, True, 1.0)          # one band-limited scalar (dimensionless)
         for sv in labels:
             specs = _register(pe.PrimitiveEquationsSpecs.from_si(scale=_scale(sv), **consts), sv)
-            g = _mkgrid(radius=specs.radius, route=route)
+            g = _mkgrid(radius=specs.radius, route=route, **gk)
             want = a_si / _scale_vec(sv)[0]
             ctx.oracle_close(f'grid.radius = non-dimensionalised SI radius for every construction route [{route}]', float(g.radius), want, tol_rel=1e-12)
             ctx.exact(f'route {route}: same resolution under every scale', [list(g.modal_shape), list(g.nodal_shape)], [list(g0.modal_shape), list(g0.nodal_shape)])
@@ -901,7 +943,8 @@ def r_dfi(ctx, a):
     number of steps (and the Lanczos weights) must not depend on the time unit."""
     m = M(); ti = m['ti']; jax = m['jax']
     rng = np.random.Generator(np.random.PCG64(a['seed']))
-    labels = ['default'] + a['scales']
+    labels = ['default'] + a['scales'] + a.get('count_scales', [])
+    nrun = 1 + len(a['scales'])            # the scales after these only enter the (cheap) step-count comparison
     p = _sw_problem(rng) if a['eq'] == 'shallow_water' else _pe_problem(rng, 'dry', 3)
     u = m['units']
     for ip, (Wv, Wu, Sv, Su) in enumerate(a['pairs']):
@@ -919,7 +962,7 @@ def r_dfi(ctx, a):
             Rn.append({'number of steps in each half of the window (window/step given in %s/%s)' % (Wu, Su): np.asarray([float(len(w))]),
                        'number of steps in each half of the window (window/step given in seconds)': np.asarray([float(len(w2))]),
                        'lanczos weights (padded)': np.pad(w, (0, 64 - len(w))), 'lanczos weights (seconds, padded)': np.pad(w2, (0, 64 - len(w2)))})
-            if not do_run: continue
+            if not do_run or len(Rs) >= nrun: continue
             filt = _filters_si(['exponential'], g, specs, S_si)
             with jax.disable_jit():        # the scans are executed step by step: no compilation per scale
                 out = ti.digital_filter_initialization(eq, solver, filt, W, W, S)(st)
@@ -928,7 +971,7 @@ def r_dfi(ctx, a):
         ctx.count('dfi:%s window=%g %s step=%g %s' % (a['eq'], Wv, Wu, Sv, Su))
         _cmp(ctx, f'digital filter initialization ({a["eq"]}): step count and weights do not depend on the time unit', Rn, labels)
         if do_run:
-            _cmp(ctx, f'digital filter initialization ({a["eq"]}): filtered multi-step state equal in SI under every scale', Rs, labels)
+            _cmp(ctx, f'digital filter initialization ({a["eq"]}): filtered multi-step state equal in SI under every scale', Rs, labels[:nrun])
 
 
 # ---------------------------------------------------------------------------
